@@ -631,6 +631,105 @@ def r15_6(ctx: Ctx, rep: Report) -> None:
             rep.violation("AceGroup.tcam_count", f"path [{label}] adds {' + '.join(snippet(i, 40) for i in incs) or '0'}", f"the estimate must add {want} for this kind of item: otherwise it is not 1 + the sum over ACEs of source x destination member counts and changes under grouping", where(f, loop.ast), inp="a grouped ACL with a heading-only block")
 
 
+def block_key_is_heading(ctx: Ctx, rep: Report, rid: str = "R15.12") -> None:
+    """A block is opened by a heading remark and is named by that remark's whole text: two different headings never
+    share a block (a key made from a part of the text merges 'C-1, web' and 'C-1, db')."""
+    from .common import single_env
+
+    rep.rule(rid)
+    f = ctx.func("Acl.group")
+    env = single_env(f.node)
+    n = 0
+    for lp in [x for x in own_nodes(f.node) if isinstance(x, ast.For) and isinstance(x.target, ast.Name)]:
+        lv = lp.target.id
+        keys = set()
+        for x in ast.walk(lp):
+            if isinstance(x, ast.Call) and isinstance(x.func, ast.Attribute) and x.func.attr == "append" and isinstance(x.func.value, ast.Subscript) and isinstance(x.func.value.slice, ast.Name) and x.args and src(x.args[0]) == lv:
+                keys.add(x.func.value.slice.id)
+        for k in sorted(keys):
+            for x in ast.walk(lp):
+                if isinstance(x, (ast.Assign, ast.AnnAssign)) and x.value is not None:
+                    t = x.targets[0] if isinstance(x, ast.Assign) else x.target
+                    if isinstance(t, ast.Name) and t.id == k:
+                        n += 1
+                        rep.instance()
+                        v = x.value
+                        if isinstance(v, ast.Name) and v.id in env:
+                            v = env[v.id]
+                        if src(v) == f"{lv}.text":
+                            rep.ok(f"Acl.group: {snippet(x, 40)}", "the block key is the heading's whole text", where=where(f, x))
+                        else:
+                            rep.violation("Acl.group", snippet(x), f"the key of a block is not the heading remark's whole text (`{lv}.text`): headings that differ only in the part that is cut off are merged into one block - the second heading is dropped and its entries move", where(f, x), inp="remarks '=== C-1, web' and '=== C-1, db'")
+    rep.floor(1, "assignments of the block key in Acl.group")
+
+
+def members_counted_only_for_groups(ctx: Ctx, rep: Report, rid: str = "R15.13") -> None:
+    """The TCAM estimate multiplies by the number of members only for an address that IS a group: the line setters
+    re-type an address without emptying its members, so `len(addr.items)` is read under `addr.type == "addrgroup"`."""
+    rep.rule(rid)
+    n = 0
+    for f in [g for g in ctx.prog.funcs if g.name == "tcam_count" and g.cls is not None]:
+        cfg = ctx.cfg(f)
+        for nd in cfg.live:
+            if nd.ast is None or nd.kind not in ("stmt", "cond"):
+                continue
+            for x in ast.walk(nd.ast):
+                if isinstance(x, ast.Attribute) and x.attr in ("items", "_items") and isinstance(x.value, ast.Attribute) and x.value.attr.lstrip("_") in ("srcaddr", "dstaddr"):
+                    n += 1
+                    rep.instance()
+                    side = src(x.value)
+                    ok = False
+                    for c, lab in cfg.transitive_control_deps(nd):
+                        if c.kind != "cond" or not isinstance(c.ast, ast.Compare) or len(c.ast.ops) != 1:
+                            continue
+                        t = c.ast
+                        txt = src(t)
+                        if f"{side}.type" in txt and "addrgroup" in txt and not isinstance(t.comparators[0], (ast.List, ast.Tuple, ast.Set)) and not isinstance(t.left, (ast.List, ast.Tuple)):
+                            if (isinstance(t.ops[0], ast.Eq) and lab == "T") or (isinstance(t.ops[0], ast.NotEq) and lab == "F"):
+                                ok = True
+                    if ok:
+                        rep.ok(f"{f.qualname}: {snippet(x, 40)}", f"read under {side}.type == 'addrgroup'", where=where(f, x))
+                    else:
+                        rep.violation(f.qualname, snippet(nd.ast, 60), f"the members of {side} are counted without a test that this address is a group: an address that was a group and was re-assigned a plain line still multiplies the estimate by its old members", where(f, x), inp="ace.dstaddr.line = 'host 10.0.0.1' on an address that had members")
+    rep.floor(2, "member counts in tcam_count") if n else rep.note(f"{rid} no tcam_count reads the members of an address")
+
+
+def group_is_atomic(ctx: Ctx, rep: Report, rid: str = "R15.14") -> None:
+    """Grouping either happens or leaves the ACL as it was: the object's state (_items, _group_by) is written after every
+    block has been built - building a block can fail (a heading longer than a name may be)."""
+    rep.rule(rid)
+    f = ctx.func("Acl.group")
+    cfg = ctx.cfg(f)
+    base = ctx.cls("Base")
+    writes = []
+    for nd in cfg.live:
+        if nd.ast is None or nd.kind != "stmt":
+            continue
+        for x in ast.walk(nd.ast):
+            if isinstance(x, ast.Attribute) and isinstance(x.ctx, ast.Store) and src(x.value) == "self" and x.attr in ("_items", "items", "_group_by"):
+                writes.append(nd)
+            if isinstance(x, ast.Call) and isinstance(x.func, ast.Attribute) and x.func.attr in ("append", "extend", "insert", "clear", "pop", "remove") and src(x.func.value) in ("self._items", "self.items"):
+                writes.append(nd)
+    rep.instance()
+    rep.require(bool(writes), "Acl.group no longer writes self._items")
+    bad = None
+    for w in writes:
+        for m in cfg.reachable(w, labels_avoid=("exc",)):
+            if m is w or m.ast is None or m.kind not in ("stmt", "cond", "for"):
+                continue
+            root = m.ast.iter if m.kind == "for" else m.ast
+            for x in ast.walk(root):
+                if isinstance(x, ast.Call) and isinstance(x.func, ast.Name):
+                    c = ctx.prog.resolve_name(f.module, x.func.id)
+                    if isinstance(c, Class) and c.is_subclass_of(base):
+                        bad = bad or (w, x)
+    if bad:
+        w, x = bad
+        rep.violation("Acl.group", f"{snippet(w.ast, 40)} ... {snippet(x, 40)}", "the ACL's own state is written before the last block is built: when building a block fails the ACL is left holding only the blocks built so far (entries are lost)", where(f, w.ast), inp="a heading remark longer than 100 characters in the second block")
+    else:
+        rep.ok("Acl.group", "every block is built before _items/_group_by are written", where=where(f, writes[0].ast))
+
+
 def run(ctx: Ctx, rep: Report, tier: str) -> None:
     r15_6(ctx, rep)
     r15_1(ctx, rep)
@@ -640,6 +739,9 @@ def run(ctx: Ctx, rep: Report, tier: str) -> None:
     items_setter_store(ctx, rep)
     ungroup_forgets_grouping(ctx, rep)
     list_api_forwarding(ctx, rep)
+    block_key_is_heading(ctx, rep)
+    members_counted_only_for_groups(ctx, rep)
+    group_is_atomic(ctx, rep)
     # R15.11 sort() orders by sequence number: resequence() numbers every item it walks over, a nested block too
     # (C10 R10.4) - a block left with a stale number is ordered by the string tie-break
     from .c10 import _traversal
